@@ -11,7 +11,7 @@ SPEC = {
          'sinks': {'C12_exec': 'ev_judge'}, 'n': {'quick': 1200, 'thorough': 30000}},
     ],
     # class number = Roles.fclass_code of the field class whose role check is missing
-    'known': {'6': 'F05', '11': 'F05', '12': 'F06', '9': 'F07', '10': 'F07', '14': 'F07', '15': 'F07'},
+    'known': {'9': 'F07'},
     'rule': 'one real plugin (NewPlugin over a scripted home chain) per case; role configurations with 4..7 oracles, '
             'destination, 2..3 sources and a feed chain that is its own chain / a source / the destination, role shapes '
             'all / random subsets / group without destination / group without feed, rarely destination not configured or '
@@ -29,12 +29,12 @@ SPEC = {
     'level_text': 'Proof: Coq theorems over the executable model of commit/execute Plugin.ValidateObservation as wired: the verdict is '
                   'exactly (observer known, destination configured, role-independent well-formedness, every field outside the recorded '
                   'classes about a chain the observer reads); one reject theorem per checked field class (merkle roots, on-ramp and off-ramp '
-                  'numbers, RMN remote config, fee components, native prices, messages, discovered addresses in both plugins), accept '
-                  'theorems for role-conformant observations, witness refutations for the seven classes the code does not role-check '
-                  '(feed prices, fee-quoter updates, chain-fee updates, commit reports, nonces, token data, costly flags) and for the two '
-                  'pre-repair functions; correspondence: plugin-level verdicts of both plugins against the model every run',
-    'level_note': 'Trusted: Coq kernel, hand-written model, differential harness, scripted home chain. No axioms. The recorded classes '
-                  '(F05 second half, F06, F07) mask mutants that only change the treatment of those fields from non-designated observers.',
+                  'numbers, RMN remote config, fee components, native prices, feed prices, fee-quoter updates, chain-fee updates, messages, '
+                  'nonces, token data, costly flags, discovered addresses in both plugins), accept theorems for role-conformant observations, '
+                  'witness refutation for the one class the code does not role-check (commit reports inside execute observations) and for the '
+                  'pre-repair functions (F04, F05, F06, F07); correspondence: plugin-level verdicts of both plugins against the model every run',
+    'level_note': 'Trusted: Coq kernel, hand-written model, differential harness, scripted home chain. No axioms. The recorded class '
+                  '(F07: commit reports in execute observations) masks mutants that only change the treatment of those fields from non-designated observers.',
     'modelled': 'commit.Plugin.ValidateObservation with merkleroot / tokenprice / chainfee / discovery validators, '
                 'execute.Plugin.ValidateObservation with validateObserverReadingEligibility, validateObservedSequenceNumbers and the '
                 'discovery validator; ChainSupport lookups over the home-chain configuration',
